@@ -264,7 +264,7 @@ def compute_cluster_stats(Tvalues, labels, random_Tvalues,
         if "Fisher" in cluster_stats:
             Fisher_values = np.zeros(nclust,float)
             ndraws = len(random_Tvalues)
-            pseudo_p_values = 1 - np.searchsorted(random_Tvalues,Tvalues)/float(ndraws)
+            pseudo_p_values = np.maximum(1 - np.searchsorted(random_Tvalues,Tvalues)/float(ndraws), 1./ndraws)
         else:
             Fisher_values = None
     for i in range(nclust):
@@ -285,7 +285,7 @@ def compute_region_stat(Tvalues, labels, label_values, random_Tvalues):
     Out: Fisher_values Array of size nregions
     """
     Fisher_values = np.zeros(len(label_values),float)
-    pseudo_p_values = 1 - np.searchsorted(random_Tvalues,Tvalues)/float(len(random_Tvalues))
+    pseudo_p_values = np.maximum(1 - np.searchsorted(random_Tvalues,Tvalues)/float(len(random_Tvalues)), 1./len(random_Tvalues))
     for i in range(len(label_values)):
         I = np.where(labels==label_values[i])[0]
         Fisher_values[i] = -np.sum(np.log(pseudo_p_values[I]))
@@ -385,10 +385,11 @@ class permutation_test:
         if nperms is None or nperms >= max_nperms:
             magic_numbers = np.arange(max_nperms)
         else:
-            #magic_numbers = np.random.randint(max_nperms,size=nperms)
-            # np.random.randint does not handle longint!
-            # So we use the following hack instead:
-            magic_numbers = np.random.uniform(max_nperms,size=nperms)
+            # np.random.randint does not handle longint: draw floats in
+            # [0, max_nperms) and floor them. The identity relabelling
+            # (magic number 0) is always part of the sample.
+            magic_numbers = np.floor(np.random.uniform(0, max_nperms, size=nperms))
+            magic_numbers[0] = 0
         # Initialize cluster_results
         cluster_results = []
         if clusters is not None:
@@ -441,32 +442,15 @@ class permutation_test:
             if verbose:
                 print("Permutation", j + 1, "out of", nmagic)
             # T values under permutation
+            magic = np.array([m], dtype=float)
             if self.nsamples == 1:
-                rand_sign = (np.random.randint(2, size=n) * 2 - 1).\
-                    reshape(n, 1)
-                rand_data = rand_sign * self.data
-                if self.vardata is None:
-                    rand_vardata = None
-                else:
-                    rand_vardata = rand_sign * self.vardata
-
                 perm_Tvalues = onesample_stat(
-                    rand_data, rand_vardata, self.stat_id, self.base,
-                    self.axis, None, self.niter).squeeze()
+                    self.data, self.vardata, self.stat_id, self.base,
+                    self.axis, magic, self.niter).squeeze()
             elif self.nsamples == 2:
-                rand_perm = np.random.permutation(np.arange(n1 + n2))
-                rand_data1 = data[rand_perm[:n1]]
-                rand_data2 = data[rand_perm[n1:]]
-                if self.vardata1 is None:
-                    rand_vardata1 = None
-                    rand_vardata2 = None
-                else:
-                    rand_vardata1 = vardata[rand_perm[:n1]]
-                    rand_vardata2 = vardata[rand_perm[n1:]]
-
                 perm_Tvalues = np.squeeze(twosample_stat(
-                        rand_data1, rand_vardata1, rand_data2, rand_vardata2,
-                        self.stat_id, self.axis, np.array([m]), self.niter))
+                        self.data1, self.vardata1, self.data2, self.vardata2,
+                        self.stat_id, self.axis, magic, self.niter))
 
             # update p values
             p_values += perm_Tvalues >= self.Tvalues
@@ -568,7 +552,10 @@ class permutation_test:
         """
         if Tvalues is None:
             Tvalues = self.Tvalues
-        return 1 - np.searchsorted(self.random_Tvalues, Tvalues)/float(self.ndraws)
+        # a pseudo p-value estimated from ndraws draws cannot be resolved
+        # below 1/ndraws (and must not vanish)
+        return np.maximum(1 - np.searchsorted(self.random_Tvalues, Tvalues)/float(self.ndraws),
+                          1./self.ndraws)
 
 
     def zscore(self, Tvalues=None):
